@@ -196,6 +196,12 @@ func (c *Ctx) Mine(key string) bool {
 // Do executes one case under sub if this worker owns it and it was not executed before.
 // It returns true if the case was executed here (so callers can count non-trivial ones).
 func (c *Ctx) Do(sub *Sub, cs Case) bool {
+	if c.stopped {
+		return false
+	}
+	if c.res.Evaluations&1023 == 1023 && !c.all {
+		c.Expired() // hard guard: enumerators that forget to ask still stop at the deadline
+	}
 	key := cs.Key()
 	hk := hash64(sub.Name + "\x00" + key)
 	sk := key
